@@ -5,11 +5,11 @@
 export GOFLAGS=-mod=mod GOPROXY=off GOSUMDB=off GOTOOLCHAIN=local
 id=$1; shift
 ks="$@"; [ -z "$ks" ] && ks="1 2 3"
-wt=/tmp/wt_$id
+wt=/tmp/wt4_$id
 for k in $ks; do
-  src=/tmp/seed_$id/$k
+  src=/tmp/seed4_$id/$k
   [ -f $src/patch.diff ] || { echo "$id-$k: no patch"; continue; }
-  dst=/verif/seeded/$id-$k
+  dst=/verif/seeded/$id-$((k+9))
   mkdir -p $dst
   cp $src/patch.diff $src/meta.json $dst/ 2>/dev/null
   cp $src/demo_test.go $dst/demo_test.go.txt 2>/dev/null
@@ -35,7 +35,7 @@ for k in $ks; do
     tgt=/repo
     if [ -n "$(git -C /repo status --porcelain)" ]; then echo "/repo not clean; skipping check run"; continue; fi
   else
-    tgt=/tmp/wt_seedrun_$id
+    tgt=/tmp/wt_seedrun4_$id
     [ -d $tgt ] || git -C /repo worktree add -q --detach $tgt HEAD
     git -C $tgt checkout -q -- . ; git -C $tgt checkout -q --detach $(git -C /repo rev-parse HEAD)
   fi
@@ -43,11 +43,11 @@ for k in $ks; do
   # packages the patch touches (callers see the contract, not the body); a changed type breaks the load instead
   funcs=$(grep '^+++ b/' $src/patch.diff | sed 's#^+++ b/##' | xargs -n1 dirname | sort -u | sed 's#^#parsley/#; s#$#.#' | paste -sd, -)
   if git -C $tgt apply $src/patch.diff; then
-    rm -rf /verif/work_seed_$id
-    /verif/bin/govc check --func "$funcs" --repo $tgt --work /verif/work_seed_$id --known /verif/known_findings.json --props C01,C02,C03,C04,C06,C07,C08,C09,C10,C11,C12,C13,C14,C15 --replays /tmp/seed_replays --timeout ${SEED_TIMEOUT:-15000} > $dst/check_output.txt 2>&1
+    rm -rf /verif/work_seed4_$id
+    /verif/bin/govc check --func "$funcs" --repo $tgt --work /verif/work_seed4_$id --known /verif/known_findings.json --props C01,C02,C03,C04,C06,C07,C08,C09,C10,C11,C12,C13,C14,C15 --replays /tmp/seed_replays --timeout ${SEED_TIMEOUT:-15000} > $dst/check_output.txt 2>&1
     echo "exit=$?" >> $dst/check_output.txt
     git -C $tgt checkout -q -- .
-    rm -rf /verif/work_seed_$id
+    rm -rf /verif/work_seed4_$id
   else
     echo "PATCH DOES NOT APPLY to $tgt" > $dst/check_output.txt
   fi
@@ -55,4 +55,4 @@ for k in $ks; do
   grep -E "demo on|suite with|suite FAIL|NOT APPLY" $dst/confirmation.txt | grep -E "FAIL|ok |ok$|packages|NOT" | head -6
   grep -E "FAILED|ENGINE|STALE|^govc:|exit=" $dst/check_output.txt | cut -c1-260 | head -12; grep -o "^VIOLATION property=C[0-9]*" $dst/check_output.txt | sort | uniq -c | tr "\n" " "; echo
 done
-[ -z "$SEED_IN_REPO" ] && [ -d /tmp/wt_seedrun_$id ] && git -C /repo worktree remove --force /tmp/wt_seedrun_$id
+[ -z "$SEED_IN_REPO" ] && [ -d /tmp/wt_seedrun4_$id ] && git -C /repo worktree remove --force /tmp/wt_seedrun4_$id
